@@ -542,11 +542,12 @@ PROPS["C08"] = {
                                 "httpcluster_Runner_setStateError", "composite_Runner_Run", "composite_Runner_Reload",
                                 "httpserver_Runner_Run", "httpserver_Runner_Reload", "httpserver_Runner_shutdown",
                                 "httpcluster_Runner_Run", "httpcluster_Runner_shutdown", "httpcluster_Runner_processConfigUpdate"],
-    "lean_modules": ["GoSup.Props.C08", "GoSup.Props.C08L", "GoSup.Tie.Lts", "GoSup.Props.C08S"],
+    "lean_modules": ["GoSup.Props.C08", "GoSup.Props.C08L", "GoSup.Tie.Lts", "GoSup.Props.C08S", "GoSup.Props.C08C"],
     "theorems": ["GoSup.Props.C08.c08_walk", "GoSup.Props.C08.edge_apply", "GoSup.Props.C08L.c08_result_comp",
                  "GoSup.Props.C08L.c08_result_http", "GoSup.Props.C08S.c08_sub_stream", "GoSup.Props.C08S.c08_sub_in_order",
                  "GoSup.Props.C08S.c08_sub_last_is_current", "GoSup.Props.C08S.c08_f1_witness",
-                 "GoSup.Props.C08S.read_first_loses_update"],
+                 "GoSup.Props.C08S.read_first_loses_update", "GoSup.Props.C08C.c08_cluster_walk", "GoSup.Props.C08C.c08_cluster_refuses",
+                 "GoSup.Props.C08C.c08_result_cluster", "GoSup.Props.C08C.c08_cluster_edges"],
     "ties": ["GoSup.Props.C08.tie_setState_sites", "GoSup.Props.C08.tie_error_reachable", "GoSup.Props.C08.tie_table_documented",
              "GoSup.Props.C08.tie_isRunning", "GoSup.Tie.Lts.tie_comp_table", "GoSup.Tie.Lts.tie_http_table"],
     "legs": [{"name": "httpsrv", "cmd": "httpsrv"}, {"name": "composite", "cmd": "composite"}, {"name": "cluster", "cmd": "cluster"}],
@@ -567,8 +568,13 @@ PROPS["C08"] = {
                   "changes with the two steps of getStateChanInternal (model FsmSub): a subscriber that keeps up has received the "
                   "state that was read, then every change since its registration, in order; exactly the documented stream when no "
                   "change falls between registration and read; its last value is always the current state; finding C08-F1 and the "
-                  "lost update of the read-first variant are witnesses. Channel closure and the cluster's result clause are checked "
-                  "on traces of the real runners.",
+                  "lost update of the read-first variant are witnesses. Cluster (every state change is made by the Run goroutine: "
+                  "sequential model ClusterRun): for any number of configuration maps a fresh cluster walks Booting, Running, "
+                  "(Reloading, Running)^n, Stopping, Stopped and returns nil; from any other state Run() refuses, leaves Error and "
+                  "returns an error; nil iff Stopped for every start state; every state entered along a table edge or Error "
+                  "(c08_cluster_walk, c08_cluster_refuses, c08_result_cluster, c08_cluster_edges), compared with the real cluster on "
+                  "every history of the cluster leg (state after every map, result and state at return, a second Run()). Channel "
+                  "closure is checked on traces of the real runners.",
     "level_note": COMMON_NOTE,
     "design_ref": "DESIGN.md section 5, C08",
 }
